@@ -302,11 +302,28 @@ func mustSeparate(a, b tok) bool {
 	return false
 }
 
+var twin = gen.Twin{New: func() func() bool {
+	l := css.NewLexer(parse.NewInputString("a{b:url( x ) \\41 1e+3px u+1?? /*c*/ \"s\"}@m --x:{y}"))
+	return func() bool { tt, _ := l.Next(); return tt != css.ErrorToken }
+}}
+
+const cssTail = "x)}\"*/a{b:c}"
+
 func lexAll(src []byte) []tok {
-	l := css.NewLexer(parse.NewInputBytes(src))
+	in, whole := gen.Embedded(src, cssTail)
+	input := parse.NewInputBytes(in)
+	l := css.NewLexer(input)
 	var out []tok
+	defer func() {
+		input.Restore()
+		if ok, rest := gen.CheckEmbedded(in, whole, cssTail, true); !ok || !bytes.Equal(in, src) {
+			panic(fmt.Sprintf("lexing %q changed the caller's buffer: %q + %q", src, in, rest))
+		}
+	}()
 	for i := 0; i <= len(src)+1; i++ {
 		tt, data := l.Next()
+		twin.Step()
+		_ = l.Err() // polled after every call: reading the error state must not disturb the lexer
 		if tt == css.ErrorToken {
 			break
 		}
